@@ -327,7 +327,7 @@ Hypothesis z_bytes : forall cs, bytes_ok (concat (zcomp cs)) = true.
 Hypothesis zl_roundtrip : forall d, unzl (zl d) = Some d.
 Hypothesis zl_bytes : forall d, bytes_ok (zl d) = true.
 
-Definition table_ok (c : tr_cfg) : Prop := tc_table c = [] \/ wf (tc_table c) = true.
+Notation table_ok := tr_table_ok.
 
 Lemma r_name_file c d e k st names sc sch ln st' :
   te_isdir e = false -> tr_spec_entry c d e st = Some (ln, st') ->
@@ -898,4 +898,111 @@ Proof.
   destruct Hq' as [-> | ->]; reflexivity.
 Qed.
 
+(* ---------- the composed statements ---------- *)
+Lemma nodup_fold_add per : forall names, NoDup names -> NoDup (fold_left tr_add_name per names).
+Proof. induction per as [|n per IH]; intros names Hn; [exact Hn|]. cbn [fold_left]. apply IH, nodup_add_name, Hn. Qed.
+
+Theorem transfer_ok c d ess f0 per all stf : table_ok c ->
+  Forall (fun es => bytes_ok (te_data (fst es)) = true) ess ->
+  stat f0 d = SFound Dir -> tr_wf c (map fst ess) ->
+  tr_spec c d (map fst ess) (init_state f0) [] = Some (per, all, stf) ->
+  forall fuel, (tr_fuel digest zcomp c ess <= fuel)%nat ->
+  tr_outcome_ok c d f0 ess (tr_run digest H deq zcomp zdecomp zl unzl fuel c d ess f0).
+Proof.
+  intros Ht Hb Hd Hwf Hs fuel Hf. rewrite (run_complete c d ess f0 per all stf Ht Hb Hs fuel Hf).
+  destruct (spec_tree c d f0 (map fst ess) per all stf Hd Hwf Hs) as (A1 & A2 & A3 & A4 & A5 & A6).
+  unfold tr_outcome_ok, final_conf. cbn [tr_sender_ok tr_receiver_ok tr_quiet cf_s cf_r cf_s2r cf_r2s cf_log ss_phase rs_phase ss_names rs_names rs_st].
+  repeat (split; [reflexivity|]). exists per, all. repeat (split; [reflexivity|]). split; [|apply shape_ok].
+  unfold tr_tree_at. split; [exact A1|]. split.
+  { intro ln. rewrite A2, in_fold_add. cbn. tauto. }
+  split; [rewrite A2; apply nodup_fold_add; constructor|]. auto.
+Qed.
+
+Lemma quiet_stuck c d (cf : conf) : tr_quiet digest cf = true -> stepc c d cf = None.
+Proof. unfold tr_quiet, tr_step. destruct (cf_s2r digest cf); [|discriminate]. destruct (cf_r2s digest cf); [reflexivity | discriminate]. Qed.
+
+Theorem success_implies_ok c d ess f0 : table_ok c ->
+  Forall (fun es => bytes_ok (te_data (fst es)) = true) ess ->
+  Forall (fun es => te_isdir (fst es) = true -> tr_json c = true) ess ->
+  stat f0 d = SFound Dir -> tr_wf c (map fst ess) ->
+  forall fuel, (tr_fuel digest zcomp c ess <= fuel)%nat \/ tr_quiet digest (tr_run digest H deq zcomp zdecomp zl unzl fuel c d ess f0) = true ->
+  tr_sender_ok digest (tr_run digest H deq zcomp zdecomp zl unzl fuel c d ess f0) = true \/
+  tr_receiver_ok digest (tr_run digest H deq zcomp zdecomp zl unzl fuel c d ess f0) = true ->
+  tr_outcome_ok c d f0 ess (tr_run digest H deq zcomp zdecomp zl unzl fuel c d ess f0).
+Proof.
+  intros Ht Hb Hdj Hd Hwf fuel Hf Hok.
+  (* at rest, more fuel changes nothing: reduce to the case of enough fuel *)
+  assert (Hrun : exists fuel', (tr_fuel digest zcomp c ess <= fuel')%nat /\
+     tr_run digest H deq zcomp zdecomp zl unzl fuel' c d ess f0 = tr_run digest H deq zcomp zdecomp zl unzl fuel c d ess f0).
+  { destruct Hf as [Hf|Hq]; [exists fuel; split; [exact Hf | reflexivity]|].
+    exists (fuel + tr_fuel digest zcomp c ess)%nat. split; [lia|]. unfold tr_run. rewrite run_add.
+    apply run_stuck, quiet_stuck, Hq. }
+  destruct Hrun as (fuel' & Hf' & Heq). rewrite <- Heq in Hok |- *. clear Heq.
+  destruct (tr_spec c d (map fst ess) (init_state f0) []) as [[[per all] stf]|] eqn:Hs.
+  - apply (transfer_ok c d ess f0 per all stf Ht Hb Hd Hwf Hs fuel' Hf').
+  - destruct (run_incomplete c d ess f0 Ht Hb Hdj Hs fuel' Hf') as [A B]. rewrite A, B in Hok. destruct Hok; discriminate.
+Qed.
+
 End TransferProofs.
+
+(* ---------- the premises are satisfiable ---------- *)
+(* an injective coding of arbitrary number lists into byte lists (unary, 0-terminated), as a
+   stand-in for a compressor: it meets both codec hypotheses *)
+Definition wit_enc (l : list N) : list byte := flat_map (fun x => repeat 1 (N.to_nat x) ++ [0]) l.
+Fixpoint wit_dec (acc : N) (l : list byte) : list N :=
+  match l with
+  | [] => []
+  | b :: r => if b =? 0 then acc :: wit_dec 0 r else wit_dec (acc + 1) r
+  end.
+
+Lemma wit_dec_ones n : forall acc rest, wit_dec acc (repeat 1 n ++ 0 :: rest) = (acc + N.of_nat n) :: wit_dec 0 rest.
+Proof.
+  induction n as [|n IH]; intros acc rest.
+  - cbn. rewrite N.add_0_r. reflexivity.
+  - cbn [repeat app wit_dec]. change (1 =? 0) with false. cbv iota. rewrite IH. f_equal. lia.
+Qed.
+
+Lemma wit_roundtrip l : wit_dec 0 (wit_enc l) = l.
+Proof.
+  induction l as [|x l IH]; [reflexivity|]. cbn [wit_enc flat_map]. rewrite <- app_assoc. cbn [app].
+  rewrite wit_dec_ones. fold (wit_enc l). rewrite IH, N.add_0_l, N2Nat.id. reflexivity.
+Qed.
+
+Lemma wit_bytes l : bytes_ok (wit_enc l) = true.
+Proof.
+  unfold bytes_ok. apply forallb_forall. intros b Hb. unfold wit_enc in Hb. apply in_flat_map in Hb as (x & _ & Hb).
+  apply in_app_or in Hb as [Hb|[<-|[]]]; [apply repeat_spec in Hb; subst|]; reflexivity.
+Qed.
+
+Definition wit_zcomp (cs : list (list byte)) : list (list byte) := [wit_enc (concat cs)].
+Definition wit_zdecomp (z : list byte) : option (list byte) := Some (wit_dec 0 z).
+Definition wit_zl (d : list byte) : list byte := wit_enc d.
+Definition wit_unzl (z : list byte) : option (list byte) := Some (wit_dec 0 z).
+
+Lemma wit_codec_ok :
+  (forall cs, wit_zdecomp (concat (wit_zcomp cs)) = Some (concat cs)) /\
+  (forall cs, bytes_ok (concat (wit_zcomp cs)) = true) /\
+  (forall d, wit_unzl (wit_zl d) = Some d) /\ (forall d, bytes_ok (wit_zl d) = true).
+Proof.
+  unfold wit_zdecomp, wit_zcomp, wit_unzl, wit_zl. cbn [concat]. repeat split; intros; rewrite ?app_nil_r.
+  - rewrite wit_roundtrip. reflexivity.
+  - apply wit_bytes.
+  - rewrite wit_roundtrip. reflexivity.
+  - apply wit_bytes.
+Qed.
+
+(* ---------- after the negotiation of C14 both ends run with one configuration ---------- *)
+From Trzsz Require Import Model.RelayNeg Proofs.RelayNeg.
+
+Lemma ends_agree_cfg so cc upload : ends_agree so cc -> tr_cfg_of so upload = tr_cfg_of cc upload.
+Proof.
+  unfold ends_agree, tr_cfg_of. intros (A & B & C & _ & E & _ & G & I & _). rewrite A, B, C, E, G, I. reflexivity.
+Qed.
+
+Theorem negotiated_same_cfg g win es wa so cc upload : es = [] \/ same_win win es ->
+  negotiate g win es wa = OutAgreed so cc -> tr_cfg_of so upload = tr_cfg_of cc upload.
+Proof.
+  intros Hes Hn. apply ends_agree_cfg. destruct es as [|e es].
+  - apply (ends_agree_direct _ _ _ _ _ Hn).
+  - destruct Hes as [Hes|Hw]; [discriminate|]. apply (ends_agree_through_relays g win (e :: es) wa so cc); [discriminate | exact Hw | exact Hn].
+Qed.
